@@ -355,6 +355,8 @@ CONTAINMENT_WORDS = ("fs_allowed", "rel_inside", "harmless_suffix", "under_root"
 def owner(unit, f):
     """Which property a failing obligation of a SHARED unit is reported under (None: every property using the unit).
     Every failure has exactly one owner or is reported by all users - nothing is dropped."""
+    if f.fn.startswith("URL::is_path_inside_root") and f.kind == "postcondition" and f.snippet.replace(" ", "").startswith("inside(path@)==>res"):
+        return "C02"        # the guard refuses a path that stays inside: files are not served (C02), containment (C01) is intact
     if any(w in f.snippet for w in CONTAINMENT_WORDS) or f.fn.startswith("URL::is_path_inside_root"):
         return "C01"
     if unit == "static":
